@@ -122,7 +122,7 @@ def result_line(out):
 def validate_trace(job):
     """job: dict(trace, spec, cfg, env, workdir, timeout) -> dict"""
     rc, out = tlc(job["spec"], job["cfg"], job["workdir"], extra_env=dict(job["env"], TRACE=job["trace"]),
-                  timeout=job["timeout"])
+                  timeout=job["timeout"], xmx="6g")
     res, consumed = result_line(out)
     ok = rc == 0 and res is not None and consumed is not None and consumed[0] == consumed[1]
     return {"trace": job["trace"], "rc": rc, "ok": ok, "res": res, "consumed": consumed,
